@@ -101,8 +101,8 @@ def run(rng, tier, model_ok):
     # under every small digit limit and thresholds around the value's magnitude; both signs
     ks = [1, 7, 12, 105, 1001, 10001, 100001, 1000001, 20005, 300007, 99999, 100000, 1234567] if tier == "quick" else [1, 2, 5, 7, 9, 10, 11, 12, 19, 99, 100, 101, 105, 999, 1001, 99999, 100000, 100001, 1234567, 12345678]
     for k in ks:
-        for sc in range(0, 9):
-            for lim in range(1, 9):
+        for sc in range(0, 15):
+            for lim in (1, 2, 3, 4, 6, 8, 12, 20):
                 for el in (1, 2, 3, 4, 8, 12):
                     if tier == "quick" and rng.random() < 0.5:
                         continue
